@@ -116,7 +116,8 @@ class Den:
         self.size_param = size_param or (lambda a: None)
         self.accesses: list[Access] = []
         self.guards: list = []
-        self.nested_reduction_assumptions: list = []
+        # reduction variables whose bounds are read from arrays (CSR rows)
+        self.data_dependent_vars: list = []
 
     # -- entry points
     def top(self, expr, env):
@@ -134,6 +135,8 @@ class Den:
             lo_t = as_int(self.rec(lo, env))
             hi_t = as_int(self.rec(hi, env))
             v = z3.Int(f"{name}")
+            if self._has_array_app(lo_t) or self._has_array_app(hi_t):
+                self.data_dependent_vars.append(v)
             rvars[name] = v
             env2[name] = v
             bounds.append((name, lo_t, hi_t))
@@ -143,6 +146,39 @@ class Den:
         body = self.rec(expr.inner_expr, env2)
         self.guards.pop()
         return Reduction(expr.op, bounds, body, rvars)
+
+    def _has_array_app(self, t):
+        names = set()
+        for f, rank in self.arrays.by_id.values():
+            names.add(f.decl().name() if rank == 0 else f.name())
+        seen, stack = set(), [t]
+        while stack:
+            x = stack.pop()
+            if x.get_id() in seen:
+                continue
+            seen.add(x.get_id())
+            if z3.is_app(x):
+                if x.decl().kind() == z3.Z3_OP_UNINTERPRETED and \
+                        x.decl().name() in names:
+                    return True
+                stack.extend(x.children())
+        return False
+
+    def is_data_dependent(self, t):
+        if self._has_array_app(t):
+            return True
+        ids = {v.get_id() for v in self.data_dependent_vars}
+        seen, stack = set(), [t]
+        while stack:
+            x = stack.pop()
+            if x.get_id() in seen:
+                continue
+            seen.add(x.get_id())
+            if x.get_id() in ids:
+                return True
+            if z3.is_app(x):
+                stack.extend(x.children())
+        return False
 
     # -- recursion
     def rec(self, e, env):
